@@ -107,6 +107,10 @@ func c19FromWS(t *rapid.T, ws *gen.Workspace) c19Case {
 }
 
 func compileWarn(files map[string]string, name string) (linker.Files, []string, error) {
+	return compileWarnAll(files, []string{name})
+}
+
+func compileWarnAll(files map[string]string, names []string) (linker.Files, []string, error) {
 	var mu sync.Mutex
 	var unused []string
 	rep := reporter.NewReporter(nil, func(e reporter.ErrorWithPos) {
@@ -117,7 +121,7 @@ func compileWarn(files map[string]string, name string) (linker.Files, []string, 
 			mu.Unlock()
 		}
 	})
-	res, err := compileMap(files, []string{name}, compileOpts{Reporter: rep})
+	res, err := compileMap(files, names, compileOpts{Reporter: rep})
 	sort.Strings(unused)
 	return res, unused, err
 }
@@ -208,4 +212,77 @@ func TestC19_UnusedImports(t *testing.T) {
 			return c19FromWS(t, ws)
 		},
 		Check: c19Check})
+}
+
+
+// c19Multi: several files requested in one call, importers before their imports, optionally with the
+// first name repeated many times in between (repeats are no-ops for the compiler but keep the request
+// loop busy while the first file's task already creates results for its imports).
+type c19MultiCase struct {
+	Files map[string]string
+	Names []string // distinct, importers first
+	Pad   int      // repeats of Names[0] inserted after it
+}
+
+func c19MultiCheck(cc c19MultiCase, r *ev.Rec) error {
+	var c struct {
+		Files   map[string]string
+		Request []string
+	}
+	c.Files = cc.Files
+	c.Request = []string{cc.Names[0]}
+	for i := 0; i < cc.Pad; i++ {
+		c.Request = append(c.Request, cc.Names[0])
+	}
+	c.Request = append(c.Request, cc.Names[1:]...)
+	_, got, err := compileWarnAll(c.Files, c.Request)
+	if err != nil {
+		return fmt.Errorf("workspace rejected: %v\n%s", err, showFiles(c.Files))
+	}
+	seen := map[string]bool{}
+	var want []string
+	for _, n := range c.Request {
+		if seen[n] {
+			continue
+		}
+		seen[n] = true
+		_, w, err := compileWarn(c.Files, n)
+		if err != nil {
+			return fmt.Errorf("%s alone rejected: %v", n, err)
+		}
+		want = append(want, w...)
+	}
+	sort.Strings(want)
+	if fmt.Sprint(got) != fmt.Sprint(want) {
+		return fmt.Errorf("unused-import warnings of one call requesting %d names (%d distinct: importers first) differ from the union of the warnings of each requested file compiled alone:\n got  %v\n want %v\n%s", len(c.Request), len(seen), got, want, showFiles(c.Files))
+	}
+	imported := false
+	for i, n := range cc.Names {
+		for _, m := range cc.Names[:i] {
+			if m != n && strings.Contains(c.Files[m], `"`+n+`"`) {
+				imported = true
+			}
+		}
+	}
+	r.Case(ev.JSONFP(c.Files)^ev.HashStr(strings.Join(c.Request[:1], ",")), len(want) >= 1 && imported, fmt.Sprintf("distinct-requested=%d", len(seen)), fmt.Sprintf("padding>0=%v", len(c.Request) > len(seen)))
+	if len(want) >= 1 && imported && r.WantSample() {
+		r.Sample(map[string]any{"request_distinct": len(seen), "request_len": len(c.Request), "warnings": want})
+	}
+	return nil
+}
+
+func TestC19_MultiRequest(t *testing.T) {
+	ev.Run(t, ev.Spec[c19MultiCase]{ID: "C19", Name: "MultiRequest", Quick: 400, Thorough: 20000,
+		Rule: "generated workspaces; ALL files requested in one Compile call, importers before the files they import, with the first name repeated 0/1000/60000 times before the rest (repeats are no-ops; they keep the request loop busy while the first task already creates the results of its imports); oracle (differential): the multiset of unused-import warnings equals the union of the warnings of each file compiled alone (which TestC19_UnusedImports checks against the model); non-trivial = at least one warning expected and some requested file is imported by an earlier requested one",
+		Gen: func(t *rapid.T) c19MultiCase {
+			ws := gen.GenWorkspace(t, gen.Config{MinFiles: 3, MaxFiles: 6, NoOptions: true, ImportPct: 75, PublicPct: 15, MsgRefPct: 40})
+			// generated files only import earlier files: reverse order puts importers first
+			var names []string
+			for i := len(ws.Files) - 1; i >= 0; i-- {
+				names = append(names, ws.Files[i].Name)
+			}
+			pad := []int{0, 1000, 60000}[gen.Uniform(t, 3, "pad")]
+			return c19MultiCase{Files: ws.PrintAll(), Names: names, Pad: pad}
+		},
+		Check: c19MultiCheck})
 }
